@@ -18,6 +18,17 @@ CLAIMS: dict[str, dict[str, str]] = {
         "note": NOTE,
         "technique": "AST path enumeration (must-return), reconstruction-site field fidelity, offset-frame algebra",
     },
+    "C02": {
+        "text": "Static rule checking: who-may-call/must-pass-through from the 11 wall-clock entry points into "
+                "DateTime.create -> tz.convert with parameter forwarding (fold, raise_on_unknown_times) checked on "
+                "every syntactic path; fold defaults fold to 1; Timezone.convert's naive branch is evaluated by the "
+                "checker's own path enumerator over the finite abstract domain {after>,=,<before} x fold x raise "
+                "(12 cases, exhaustive) against the table the property states. The values only reach the code "
+                "through comparisons, so the finite case analysis is complete for the branch logic; which wall times "
+                "are skipped/repeated in which zone is zone data and not claimed.",
+        "note": NOTE,
+        "technique": "call-path funnel + parameter-forwarding check, finite abstract case analysis of convert()",
+    },
 }
 
 NOT_APPLICABLE: dict[str, str] = {}
